@@ -161,13 +161,15 @@ def gen(rng, i, tier):
         s = [1e-3, 1e-2, 1.0, 1.0]                       # cgs -> SI (g->kg, cm->m)
     else:
         s = [logu(rng, lo, 1 / lo) for _ in range(4)]
-    return dict(entry=ent, seed=int(rng.integers(2 ** 31)), s=s)
+    return dict(entry=ent, seed=int(rng.integers(2 ** 31)), s=s, rep=i // len(ENTRIES))
 
 
 def run(ctx, p):
     ent = p["entry"]
     e = C.CAT[ent]
-    if e["cost"] >= 1 and p["seed"] % 3 != 0 and not ctx.thorough():
+    # costly classes: repetitions 0, 3, 6 ... of the quick tier (scheduled, not drawn: a random thinning left one run in
+    # five without any Guderley pair and the run inconclusive)
+    if e["cost"] >= 1 and p.get("rep", p["seed"]) % 3 != 0 and not ctx.thorough():
         raise Skip("costly_class_thinned")
     cls = C.load(e["path"])
     rng = np.random.default_rng(p["seed"])
